@@ -151,6 +151,11 @@ def job(payload):
             prog = nested_blocks(rng)
         elif rng.random() < 0.12:
             prog = infix_binders(rng)
+        elif rng.random() < 0.08:
+            # equal stacks in a row that differ only in what a name is bound to (C01's twins): conditions, assertions and closure bodies read it
+            from vf.props import c01
+            tprog, tstacks = c01.twin_case(rng, {"maxdepth": 3})
+            prog = ("cat", [("alt", [("cat", list(st)) for st in tstacks]), tprog])
         # make it binder heavy: wrap in extra binders around the program
         k = rng.random()
         if k < 0.3:
@@ -277,6 +282,39 @@ def negatives(prog, rng):
     return out
 
 
+def job_storm(payload):
+    """Thousands of block applications that are ABANDONED after their first result (inside ?( ), as an infix operand, as an `if` condition;
+    the block could yield more) in one process -- and then blocks applied and read through names must still behave as their bodies do."""
+    seed, = payload
+    d = common.get_driver()
+    rng = random.Random(seed)
+    out = {"storm_applications": 0, "n": 0, "o1": 0, "o1_skipped": 0, "alpha": 0, "inline": 0, "neg": 0, "neg_rejected": 0, "binders": 0, "bad": [], "ctx": {}, "samples": [], "nontrivial": 0}
+    ten = "(0, 1, 2, 3, 4, 5, 6, 7, 8, 9)"
+    storms = ["let F := {(1, 2)}; %s %s %s %s ?(F) drop drop drop" % (ten, ten, ten, ten),
+              "let F := {(1, 2)}; %s %s %s %s (F == 1) drop drop drop" % (ten, ten, ten, ten),
+              "let F := {(1, 2)}; %s %s %s %s (if ?(F 2 ?eq) then 1 else 2) drop drop drop drop" % (ten, ten, ten, ten),
+              "%s %s %s %s (|A B C D| {(D, A)} (|G| ?(G) A))" % (ten, ten, ten, ten)]
+    try:
+        for t in rng.sample(storms, 2):
+            r = d.run(t, fuel=0, max=20000, timeout=300)
+            out["storm_applications"] += 10000
+            if r["st"] != "done" or len(r["res"]) != 10000:
+                out["bad"].append(("many-abandoned-block-applications:query-fails-or-loses-results", dict(text=t[:200], st=r["st"], msg=r.get("msg"), results=len(r.get("res", [])))))
+        for i in range(12):
+            prog = nested_blocks(rng)
+            txt = zast.text(prog)
+            out["n"] += 1
+            bad = []
+            one_case(d, rng, prog, txt, out, bad)
+            out["bad"] += [("after-many-abandoned-applications:" + k, w) for k, w in bad[:3]]
+    except common.DriverCrash as ex:
+        out["bad"].append(("crash:" + getattr(ex, "key", ex.kind), dict(report=ex.report[-3000:])))
+    except common.DriverTimeout as ex:
+        out["bad"].append(("hang", dict(request=ex.request[:300])))
+    out["bad"] = out["bad"][:20]
+    return out
+
+
 def run(chk):
     quick = chk.tier == "quick"
     pool = common.Pool()
@@ -285,6 +323,7 @@ def run(chk):
     jobs = [(chk.seed * 7919 + i, per, {}) for i in range(n // per)]
     tot, ctx, samples = {}, {}, []
     zcheck.consume(chk, pool.map(job, jobs), tot, ctx, samples, "C03 workload")
+    zcheck.consume(chk, pool.map(job_storm, [(chk.seed * 1299709 + i,) for i in range(4 if quick else 48)]), tot, ctx, samples, "C03 abandoned applications")
     hs = pool.hook_stats()
     pool.finish()
     chk.cov.update({
@@ -293,6 +332,7 @@ def run(chk):
         "rule": "one evaluation = one generated program containing at least one binder, checked by O1 + alpha-renaming + block inlining + "
                 "negative variants; non-trivial = at least two bound identifiers",
         "bound_identifiers_total": tot.get("binders", 0),
+        "block_applications_abandoned_after_their_first_result_before_the_follow_up_programs": tot.get("storm_applications", 0),
         "O1_model_comparisons": tot.get("o1", 0), "O1_skipped_indeterminate": tot.get("o1_skipped", 0),
         "alpha_renamings_compared": tot.get("alpha", 0), "block_inlinings_compared": tot.get("inline", 0),
         "negative_variants_generated": tot.get("neg", 0), "negative_variants_expected_rejected": tot.get("neg_rejected", 0),
